@@ -1256,7 +1256,7 @@ def dir_table(ctx, rule):
         return parent_dir
     kinds = ('div', 'bdi', 'textarea', 'input:text', 'input:tel', 'input:checkbox')
     dirs = (None, 'ltr', 'RTL', 'auto', 'bogus')
-    texts = ((), ('N1',), ('N', 'L'), ('1R', 'L'), ('NA',), (('#comment', 'R'), 'NL'), (('#cdata', 'A'), ('#pi', 'R'), 'N'))
+    texts = ((), ('N1',), ('N', 'L'), ('1R', 'L'), ('NA',), (('#comment', 'R'), 'NL'), (('#cdata', 'A'), ('#pi', 'R'), 'N'), (' ',), (' ', '  '), ('  R',))
     bad = None
     for kind, dirv, text, pdir in itertools.product(kinds, dirs, texts, (None, 'rtl', 'ltr')):
         text = tuple(text)
@@ -2186,7 +2186,9 @@ def pattern_context_table(ctx, rule):
     and puts a caret under that column."""
     fnq = 'util.get_pattern_context'
     mod, fn = ctx.src.func(fnq)
-    patterns = ['ab', 'ab\ncd', 'ab\r\ncd\nef', 'a\rb', '\nab', 'ab\n', 'a\n\nb', '', 'x\r\n']
+    patterns = ['ab', 'ab\ncd', 'ab\r\ncd\nef', 'a\rb', '\nab', 'ab\n', 'a\n\nb', '', 'x\r\n',
+                # columns count characters, whatever their width on a terminal: wide, full-width, combining, astral, tabs
+                '\u65e5\u672cx', '\uff41b\ncd', 'a\u0301b', '\U0001f600x', 'a\tb', 'x\n\u65e5y']
     bad = None
     n = 0
     for pat in patterns:
